@@ -6,7 +6,8 @@ package fsm_test
 // message, driven black-box through both write paths at once:
 //   - the slot state machine command path (fsm.EncodeAppendMessageEventCommand -> ApplyBatch ->
 //     fsm.DecodeAppendMessageEventResult), one command per ApplyBatch, and
-//   - the direct metadb path (ShardStore.AppendMessageEvent),
+//   - the direct metadb path (ShardStore.AppendMessageEvent), and
+//   - the batch command (fsm.EncodeAppendMessageEventsCommand) carrying the event twice,
 // each on its own channel of a Pebble DB the instance holds exclusively. The alphabet is
 // {open, delta, snapshot, close, error, cancel} x {main, lane-b} x event-id pool + finish x
 // event-id pool; ids are interchangeable keys, so they are introduced in first-use order
@@ -277,6 +278,8 @@ type c40Inst struct {
 	a       *c40Arena
 	chFSM   string
 	chDir   string
+	chPair  string
+	laneBAll bool // thorough: every event type on the second lane too
 	ids     []string
 	used    int // ids introduced so far (first-use order)
 	m       c40Model
@@ -284,9 +287,9 @@ type c40Inst struct {
 	broken  bool
 }
 
-func c40New(r *ev.R, st *c40Stats, ids []string) mc.Instance {
+func c40New(r *ev.R, st *c40Stats, ids []string, laneBAll bool) mc.Instance {
 	a, n := c40Alloc()
-	return &c40Inst{r: r, st: st, a: a, chFSM: fmt.Sprintf("f%d", n), chDir: fmt.Sprintf("d%d", n), ids: ids,
+	return &c40Inst{r: r, st: st, a: a, chFSM: fmt.Sprintf("f%d", n), chDir: fmt.Sprintf("d%d", n), chPair: fmt.Sprintf("p%d", n), ids: ids, laneBAll: laneBAll,
 		m: c40Model{Lanes: map[string]c40Lane{}, Applied: map[string]c40Applied{}}, rows: map[string]c40Lane{}}
 }
 
@@ -308,7 +311,10 @@ func (in *c40Inst) Events() []string {
 	var evs []string
 	for _, id := range in.ids[:n] {
 		for _, t := range c40Types {
-			evs = append(evs, t.short+":"+id+":"+metadb.EventKeyDefault, t.short+":"+id+":"+c40LaneB)
+			evs = append(evs, t.short+":"+id+":"+metadb.EventKeyDefault)
+			if in.laneBAll || t.short == "delta" || t.short == "close" || t.short == "cancel" {
+				evs = append(evs, t.short+":"+id+":"+c40LaneB)
+			}
 		}
 		evs = append(evs, "finish:"+id)
 	}
@@ -392,6 +398,18 @@ func (in *c40Inst) Apply(label string, _ *mc.Env) (string, error) {
 	if err != nil {
 		return "bad-result", mc.Violatef("C40:fsm-result-undecodable", "%s: the state machine returned %q, which does not decode as an append result (%v)", label, res[0], err)
 	}
+	// batch command path: the same event twice inside ONE append-events command (the second is a replay inside the batch)
+	in.a.index++
+	pres, err := in.a.sm.ApplyBatch(c40Ctx, []multiraft.Command{{SlotID: multiraft.SlotID(c40Slot), HashSlot: c40HashSlot, Index: in.a.index, Term: 1,
+		Data: fsm.EncodeAppendMessageEventsCommand([]metadb.MessageEventAppend{e.request(in.chPair), e.request(in.chPair)})}})
+	if err != nil {
+		in.fail("ApplyBatch(pair %s): %v", label, err)
+		return "error", nil
+	}
+	pgot, err := fsm.DecodeAppendMessageEventResults(pres[0])
+	if err != nil || len(pgot) != 2 {
+		return "bad-result", mc.Violatef("C40:fsm-result-undecodable", "%s twice in one command: the state machine returned %q (%d results, %v)", label, pres[0], len(pgot), err)
+	}
 	// direct metadb path
 	dgot, err := in.a.db.ForHashSlot(c40HashSlot).AppendMessageEvent(c40Ctx, e.request(in.chDir))
 	if err != nil {
@@ -427,6 +445,14 @@ func (in *c40Inst) Apply(label string, _ *mc.Env) (string, error) {
 	// the two write paths agree
 	if !c40RowsEq(after, dafter) || got.EventKey != dgot.EventKey || got.MsgEventSeq != dgot.MsgEventSeq || got.Status != dgot.Status {
 		return obs, mc.Violatef("C40:direct-and-fsm-paths-diverge", "%s: fsm path -> (%s,%d,%s) %s ; direct path -> (%s,%d,%s) %s", label, got.EventKey, got.MsgEventSeq, got.Status, c40RowsStr(after), dgot.EventKey, dgot.MsgEventSeq, dgot.Status, c40RowsStr(dafter))
+	}
+	if pafter := in.readRows(in.chPair); !c40RowsEq(after, pafter) {
+		return obs, mc.Violatef("C40:event-repeated-in-one-batch-command-applied-twice", "%s sent twice inside one append-events command left %s, sent once it leaves %s", label, c40RowsStr(pafter), c40RowsStr(after))
+	}
+	for i, pr := range pgot {
+		if pr.EventKey != got.EventKey || pr.MsgEventSeq != got.MsgEventSeq || pr.Status != got.Status {
+			return obs, mc.Violatef("C40:batch-command-result-differs", "%s twice in one command: result %d is (%s,%d,%s), the single command gives (%s,%d,%s)", label, i, pr.EventKey, pr.MsgEventSeq, pr.Status, got.EventKey, got.MsgEventSeq, got.Status)
+		}
 	}
 	// reducer model
 	if changed != want.Effective {
@@ -504,11 +530,11 @@ func TestVerifC40(t *testing.T) {
 	ids := ev.Pick(r, []string{"e1", "e2", "e3"}, []string{"e1", "e2", "e3", "e4"})
 	res := mc.Run(r, mc.System{
 		Name:      "event-projection",
-		New:       func() mc.Instance { return c40New(r, st, ids) },
+		New:       func() mc.Instance { return c40New(r, st, ids, r.Thorough()) },
 		MaxDepth:  ev.Pick(r, 6, 8),
 		MaxStates: ev.Pick(r, int64(300000), int64(3000000)),
 		Bounds: map[string]any{"event_types": "open delta snapshot close error cancel finish", "lanes": []string{metadb.EventKeyDefault, c40LaneB, metadb.EventKeyFinish + " (finish only)"},
-			"event_ids": ids, "id_symmetry": "ids are introduced in first-use order", "message": "one stream message per instance; the same sequence is applied through the slot state machine command path and through ShardStore.AppendMessageEvent",
+			"event_ids": ids, "lane_b_event_types": ev.Pick(r, "delta close cancel", "all six"), "id_symmetry": "ids are introduced in first-use order", "message": "one stream message per instance; the same sequence is applied through the slot state machine command path, through ShardStore.AppendMessageEvent and through the append-events batch command carrying every event twice",
 			"payloads": "delta appends its event id to the text, snapshot replaces it, close carries end_reason, error carries an error text and a snapshot, cancel/finish carry no snapshot"},
 		Note: "merging on the stored lanes read back through ListMessageEventStates + the reducer model (cursor, applied ids); an event id can be applied once, so the reachable space is finite and the frontier empties before the depth bound",
 	})
